@@ -45,32 +45,56 @@ theorem nway_delta : ∀ (Xs : List (Mat α)) (I : List Nat) (r : Nat), I.length
   | [], _ :: _, _, hl, _ => by simp at hl
   | _ :: _, [], _, hl, _ => by simp at hl
 
-theorem diag_get (d R : Nat) (C : Full α) (h : diagCore d R = .ok C) (J : List Nat)
-    (hJ : inBox J (List.replicate d R) = true) :
-    C.get J = sumN R (fun r => if J.all (fun j => j = r) then (1 : α) else 0) := by
+theorem diagCore_shape (d R : Nat) (C : Full α) (h : diagCore d R = .ok C) :
+    C.shape = List.replicate d R := by
   simp only [diagCore] at h
   split at h
   · cases h
-  · rename_i hd
-    injection h with h; subst h
-    rw [ofFn_get _ _ _ hJ]
-    cases J with
-    | nil =>
-      have := inBox_length hJ
-      simp at this; omega
-    | cons j0 J' =>
-      have hd' : d = (d - 1) + 1 := by omega
-      rw [hd', List.replicate_succ] at hJ
-      have hj0 : j0 < R := ((inBox_cons _ _ _ _).1 hJ).1
-      have : ∀ r, (if (j0 :: J').all (fun j => j = r) then (1 : α) else 0)
-          = if r = j0 then (if (j0 :: J').all (fun j => j = j0) then (1 : α) else 0) else 0 := by
-        intro r
-        by_cases hr : r = j0
-        · subst hr; simp
-        · have : ¬ j0 = r := fun h => hr h.symm
-          simp [hr, this]
-      rw [sumN_congr _ _ _ (fun r _ => this r), sumN_ite_eq _ _ hj0]
-      simp
+  · split at h
+    · rename_i h1
+      injection h with h; subst h; subst h1; rfl
+    · injection h with h; subst h; rfl
+
+theorem diag_get (d R : Nat) (C : Full α) (h : diagCore d R = .ok C) (J : List Nat)
+    (hJ : inBox J (List.replicate d R) = true) :
+    C.get J = sumN R (fun r => if J.all (fun j => j = r) then (1 : α) else 0) := by
+  have hlen := inBox_length hJ
+  simp only [List.length_replicate] at hlen
+  cases J with
+  | nil =>
+    simp only [diagCore] at h
+    split at h
+    · cases h
+    · simp at hlen; omega
+  | cons j0 J' =>
+    have hd' : d = (d - 1) + 1 := by simp at hlen; omega
+    have hJ' := hJ
+    rw [hd', List.replicate_succ] at hJ'
+    have hj0 : j0 < R := ((inBox_cons _ _ _ _).1 hJ').1
+    have hval : C.get (j0 :: J') = if (j0 :: J').all (fun j => j = j0) then (1 : α) else 0 := by
+      simp only [diagCore] at h
+      split at h
+      · cases h
+      · split at h
+        · rename_i h1
+          injection h with h; subst h
+          subst h1
+          have : J' = [] := by simpa using hlen
+          subst this
+          rw [ofFn_get _ _ _ (by simpa using hJ)]
+          simp
+        · injection h with h; subst h
+          rw [ofFn_get _ _ _ hJ]
+          simp
+    rw [hval]
+    have : ∀ r, (if (j0 :: J').all (fun j => j = r) then (1 : α) else 0)
+        = if r = j0 then (if (j0 :: J').all (fun j => j = j0) then (1 : α) else 0) else 0 := by
+      intro r
+      by_cases hr : r = j0
+      · subst hr; simp
+      · have : ¬ j0 = r := fun h => hr h.symm
+        simp [hr, this]
+    rw [sumN_congr _ _ _ (fun r _ => this r), sumN_ite_eq _ _ hj0]
 
 theorem map_cols_replicate : ∀ (Xs : List (Mat α)) (R : Nat), (∀ X ∈ Xs, X.cols = R) →
     Xs.map (·.cols) = List.replicate Xs.length R
@@ -88,11 +112,7 @@ theorem canToTucker_spec (Xs : List (Mat α)) (T : Ten α) (hw : (Ten.can Xs).WF
   obtain ⟨C, hC, h2⟩ := bind_ok _ _ _ h
   obtain ⟨hT, _⟩ := mkTucker_ok _ _ _ h2
   have hcols : Xs.map (·.cols) = List.replicate Xs.length (canR Xs) := map_cols_replicate Xs _ hw.2
-  have hshape : C.shape = List.replicate Xs.length (canR Xs) := by
-    simp only [diagCore] at hC
-    split at hC
-    · cases hC
-    · injection hC with hC; subst hC; rfl
+  have hshape : C.shape = List.replicate Xs.length (canR Xs) := diagCore_shape _ _ C hC
   refine ⟨C, hT, by rw [hcols, hshape], fun I hI => ?_⟩
   simp only [tuckerEntry]
   rw [tuckerEntry_congr Xs I C.get (fun J => sumN (canR Xs) (fun r => if J.all (fun j => j = r) then (1 : α) else 0)) hI
